@@ -3,13 +3,13 @@
 import json, os, sys
 ROOT = os.path.dirname(os.path.dirname(os.path.abspath(__file__)))
 sys.path.insert(0, os.path.join(ROOT, "lib"))
-from areas import AREAS, NOT_CLAIMED, HOOK_COMMITS
+from areas import AREAS, NOT_CLAIMED, HOOK_COMMITS, WIP
 
 props = [json.loads(l) for l in open(os.path.join(ROOT, "properties.jsonl"))]
 ids = [p["id"] for p in props]
 checks = []
 for pid in ids:
-    if pid not in AREAS:
+    if pid not in AREAS or not AREAS[pid].get('ready', True):
         continue
     a = AREAS[pid]
     checks.append({
@@ -23,7 +23,7 @@ for pid in ids:
         "level_note": a["level_note"],
         "technique": a.get("technique", "machine-checked proof in Coq 8.16.1 of theorems about an executable Gallina model, tied to /repo by differential correspondence checking (extracted OCaml model vs Go implementation) on every run"),
     })
-na = [{"property_id": pid, "reason": NOT_CLAIMED[pid]} for pid in ids if pid not in AREAS]
+na = [{"property_id": pid, "reason": NOT_CLAIMED.get(pid, WIP)} for pid in ids if pid not in AREAS or not AREAS[pid].get("ready", True)]
 m = {
     "version": 1,
     "setup_cmd": "./check --setup",
